@@ -344,7 +344,7 @@ def readAnySome (fx : Fixes) : Arr → Nat → R DVal
       let v ← anyAt fx vs (readAnySome fx vs) j
       pure (k, v)) s (e - s)
     pure (.map (DEntries.ofList es))
-  | .dictionary ks vs, idx => do pure (.str .transient (← dictGetStr fx ks vs idx))
+  | .dictionary ks vs, idx => do pure (.str .borrowed (← dictGetStr fx ks vs idx))
   | .union types offs fs, idx => do
     let (k, off) ← unionSelect fx types offs fs.length idx
     readAnyVariant fx fs k off
@@ -468,7 +468,7 @@ def scalar (fx : Fixes) (m : Method) : Arr → Nat → R DVal
     | _ => notImpl
   | .dictionary ks vs, idx =>
     match m with
-    | .str => do pure (.str .transient (← dictGetStr fx ks vs idx))
+    | .str => do pure (.str .borrowed (← dictGetStr fx ks vs idx))
     | .string => do pure (.str .owned (← dictGetStr fx ks vs idx))
     | _ => notImpl
   | _, _ => notImpl
